@@ -82,6 +82,10 @@ func namedGraph(name string) (*Graph, string) {
 		g = graphFan()
 	case name == "tt4":
 		g = TruthTableGraph(4, false)
+	case name == "tt7":
+		g = TruthTableGraph(7, false)
+	case strings.HasPrefix(name, "atoms:"):
+		_, g = c01AtomProfile(c01AtomKindByName(name[len("atoms:"):]))
 	case strings.HasPrefix(name, "c02suite:"):
 		i, _ := strconv.Atoi(name[len("c02suite:"):])
 		g = c02Docs("suite")[i].g
@@ -164,6 +168,11 @@ func c12Gen(tier string, emit func(c12Case)) {
 		}
 		emit(c12Case{Src: "c01/" + cs.Fam, Profile: c01Profile(cs.Forms), Graph: cs.Graph, Names: names})
 	})
+	// every atomic constraint kind, plain, under `not` and as the `if` of a conditional (trace entries of every kind)
+	for _, k := range c01AtomKinds() {
+		prof, _ := c01AtomProfile(k)
+		emit(c12Case{Src: "atoms", Profile: prof, Graph: "atoms:" + k.name, Names: []string{"plain", "neg", "asif"}})
+	}
 	// C02 paths on the suite documents
 	var ps []*PExpr
 	for l := 1; l <= 2; l++ {
@@ -202,6 +211,11 @@ func c12Gen(tier string, emit func(c12Case)) {
 			p, names := c12ProfileFor("ex.T", multi[i:i+3], lv)
 			emit(c12Case{Src: "levels", Profile: p, Graph: "tt4", Names: names})
 		}
+	}
+	// size thresholds: 64 results per level on the 128-node truth table
+	for _, lv := range lvls {
+		p, names := c12ProfileFor("ex.T", []*F{A, FOr(FAnd(A, B), FAnd(C, D)), FNot(FAtom(7))}, lv)
+		emit(c12Case{Src: "large", Profile: p, Graph: "tt7", Names: names})
 	}
 	// fan graph: nested chains and sibling quantifiers at each layer
 	path := PP(pc)
